@@ -132,7 +132,7 @@ func init() {
 				// a burst: far more jobs wait than in any of the histories (33..260), then all of them get their turn
 				return simpleCase(c, drv.RunLongQueueCase(int64(c.Idx/32)), 100)
 			}
-			if c.Idx%16 == 13 {
+			if c.Idx%16 == 4 {
 				// the event that frees a slot (task end, failure, cancel) arrives inside the accept path of a request
 				return simpleCase(c, drv.RunScheduleRacesCompletionCase(int64(c.Idx/16)), 3)
 			}
@@ -701,9 +701,9 @@ func simpleCase(c *CaseCtx, h *drv.HistResult, sampleEvery int) *CaseResult {
 func init() {
 	register(&Check{
 		ID: "C12", Level: "exploration",
-		Rule:        "populations: retention_count in {0,1,2,5} x retention_period in {0,1h,24h} per pipeline (1-3 pipelines + one that is no longer defined), 0-8 jobs per pipeline loaded from a prepared store file 'from an earlier run' (finished, canceled-unstarted, formerly running, formerly waiting; ages k*30min+7min so that every job is >= 7 minutes away from a period boundary) in shuffled file order, plus 0-4 live jobs per round (waiting, running, finished, failed, canceled) on the REAL JsonDataStore and FileOutputStore with log files for every job; optional reload that removes a pipeline; 1-3 rounds of activity + SaveToStore. Oracle = pure function of (view before, view after, store file, recursive hash of the log tree before/after): no waiting/running job removed; <= retention_count finished jobs left; none older than the period; a kept finished job has no removed newer finished job; nothing removed without settings; undefined pipelines purged; API id set == store id set == restarted runner; removed jobs' log directories gone, kept jobs' log files byte-identical. A situation is (count, period, #finished, #unfinished). Every 25th case: 2-5 SaveToStore calls at the same time on a store whose Save takes 0.5-2 ms, with nothing else going on: whenever one of the calls returns, the last snapshot the store has COMPLETED holds exactly the jobs the API reports. A third of the loaded jobs ended three minutes ago although they were created hours ago (age and order are by creation)",
+		Rule:        "populations: retention_count in {0,1,2,5} x retention_period in {0,1h,24h} per pipeline (1-3 pipelines + one that is no longer defined), 0-8 jobs per pipeline loaded from a prepared store file 'from an earlier run' (finished, canceled-unstarted, formerly running, formerly waiting; ages k*30min+7min so that every job is >= 7 minutes away from a period boundary) in shuffled file order, plus 0-4 live jobs per round (waiting, running, finished, failed, canceled) on the REAL JsonDataStore and FileOutputStore with log files for every job; optional reload that removes a pipeline; 1-3 rounds of activity + SaveToStore. Oracle = pure function of (view before, view after, store file, recursive hash of the log tree before/after): no waiting/running job removed; <= retention_count finished jobs left; none older than the period; a kept finished job has no removed newer finished job; nothing removed without settings; undefined pipelines purged; API id set == store id set == restarted runner; removed jobs' log directories gone, kept jobs' log files byte-identical. A situation is (count, period, #finished, #unfinished). Appended cases, alternating: (a) the oldest job of a pipeline (concurrency 4) still runs while more than retention_count newer jobs have finished - the save keeps it, keeps at most retention_count finished jobs and of those the newest; (b) 2-5 SaveToStore calls at the same time on a store whose Save takes 0.5-2 ms, with nothing else going on: whenever one of the calls returns, the last snapshot the store has COMPLETED holds exactly the jobs the API reports. A third of the loaded jobs ended three minutes ago although they were created hours ago (age and order are by creation)",
 		Assumptions: []string{seqAssumption, "ages are never measured against 'now' at check time with less than 7 minutes of margin"},
-		Cases:       func(t string) int { return tierN(t, 500, 12000) },
+		Cases:       func(t string) int { return tierN(t, 500, 12000) + tierN(t, 48, 960) },
 		RunCase: func(c *CaseCtx) *CaseResult {
 			if c.Idx%50 == 49 {
 				// retention settings that change while the binary runs arrive through its reload path, which applies an
@@ -721,9 +721,14 @@ func init() {
 				}
 				return res
 			}
-			if c.Idx%25 == 7 {
-				// several SaveToStore calls at the same time on a slow store: store == API whenever one of them returns
-				return simpleCase(c, drv.RunConcurrentSavesCase(c.Seed), 3)
+			if base := tierN(c.Tier, 500, 12000); c.Idx >= base {
+				if k := c.Idx - base; k%2 == 0 {
+					// several SaveToStore calls at the same time on a slow store: store == API whenever one of them returns
+					return simpleCase(c, drv.RunConcurrentSavesCase(c.Seed), 3)
+				} else {
+					// the oldest job of a pipeline still runs while more than retention_count newer jobs have finished
+					return simpleCase(c, drv.RunOldRunningJobRetentionCase(int64(k/2)), 3)
+				}
 			}
 			return simpleCase(c, drv.RunRetentionCase(c.Seed, c.TmpDir), 100)
 		},
